@@ -48,6 +48,10 @@ ASSUMPTIONS = ["'%.16g'/float(), '.4f', float32 packing and '%f' are trusted (th
                'the seam split of periodic objects, bezier_representation and grid evaluation are performed by the real code on '
                'the harness side before the model is consulted (properties C07, C04/C05, C02)']
 TOL = gen.TOL
+# GoTools semantics of the circle record: the two parameter bounds delimit an ARC of the circle
+# (point(t) = c + r(cos t * x + sin t * y), t in [t0, t1]).  The pinned reader builds the full circle and
+# relabels its domain.  Set to False to restrict the oracle to the implicit equation for such records.
+CHECK_ARC_BOUNDS = True
 
 
 def _sp():
@@ -960,6 +964,9 @@ def _oracle_prim(sp, s):
     params = [_span_params(_dknots(obj, dd), 4) for dd in range(obj.pardim)]
     X = _eval(obj, params)
     X3 = X.reshape(-1, X.shape[-1])
+    if X3.shape[1] == 2:        # planar result left in the plane z=0 ("don't touch it if not needed")
+        X = np.concatenate([X, np.zeros(X.shape[:-1] + (1,))], axis=-1)
+        X3 = X.reshape(-1, 3)
     if X3.shape[1] != 3:
         return ['%s read with dimension %d' % (p['type'], X3.shape[1])]
     Y = X3 - c
@@ -988,7 +995,7 @@ def _oracle_prim(sp, s):
     elif t in ('circle', 'arc'):
         chk('|x-c| = r', np.sqrt(lx ** 2 + ly ** 2 + lz ** 2) - r)
         chk('in the plane', lz)
-        if t == 'arc':
+        if t == 'arc' and CHECK_ARC_BOUNDS:
             t0, t1 = p['t0'], p['t1']
             a = c + r * (math.cos(t0) * ex + math.sin(t0) * ey)
             b = c + r * (math.cos(t1) * ex + math.sin(t1) * ey)
@@ -1090,6 +1097,9 @@ def classify(s, res=None):
                 return 'periodic-seam-split'
     if k == 'prim' and s['prim']['type'] == 'arc':
         return 'g2-circle-parameter-bounds-ignored'
+    if k == 'prim' and s['prim']['type'] in ('circle', 'ellipse') and s['prim']['swap']:
+        # `reverse()` of a periodic curve (property C06) is what the reader applies for the flag
+        return 'g2-reversed-periodic-primitive'
     return None
 
 
